@@ -60,8 +60,8 @@ def gen_model(rnd, max_classes=5, hooks=True):
             s = {'name': name, 'kind': 'str', 'bases': [], 'strbase': rnd.choice(['yatiml.String', 'UserString', 'str'])}
             if s['strbase'] == 'str':
                 s['strbase'] = 'yatiml.String'
-            if rnd.random() < 0.3:
-                s['str'] = ('failon', ['bad', ''])
+            if rnd.random() < 0.4:
+                s['str'] = ('failon', ['bad', ''], rnd.choice(['msg', 'bare', 'assert', 'key', 'custom']))
         else:
             bases = []
             params = []
@@ -87,8 +87,9 @@ def gen_model(rnd, max_classes=5, hooks=True):
             s = {'name': name, 'kind': 'obj', 'bases': bases, 'params': params, 'extra': rnd.random() < 0.15}
             if rnd.random() < 0.12:
                 s['bases'] = s['bases'] + ['ABC']
-            if rnd.random() < 0.1:
-                s['init'] = rnd.choice([('fail',), ('failif', params[0]['name'], 7)]) if params else ('fail',)
+            if rnd.random() < 0.14:
+                mode = rnd.choice(['msg', 'bare', 'assert', 'key', 'custom', 'rec'])
+                s['init'] = rnd.choice([('fail', mode), ('failif', params[0]['name'], 7, mode)]) if params else ('fail', mode)
             if hooks and rnd.random() < 0.15:
                 s['recognize'] = rnd.choice([
                     [], [('mapping',)], [('mapping',), ('attr', 'kind', None)],
